@@ -1,7 +1,7 @@
 (* C14 - mixed propagation outputs are mixtures of interval images of input alpha-cuts.
    grid = the probability grid of the p-boxes; hypotheses on it (length, strictly increasing, inside (0,1]) hold for Params. *)
 From Coq Require Import Reals List Arith.
-From PUN Require Import Base.Num Model.Interval Model.Pbox Model.B2B Model.Mixed Proofs.ListR Proofs.PboxWF Proofs.Query Proofs.Hier Proofs.Iso Proofs.Mixed.
+From PUN Require Import Base.Num Model.Interval Model.Pbox Model.B2B Model.Mixed Proofs.ListR Proofs.PboxWF Proofs.Query Proofs.Hier Proofs.Iso Proofs.Mixed Proofs.MixedSel.
 Import ListNotations.
 Open Scope R_scope.
 
@@ -21,6 +21,14 @@ Theorem C14_mixture_values (focal : list (R * R)) : (1 < length focal)%nat -> Fo
   mixture RN steps plo phi focal = Ok p /\ WF steps p /\
   Forall (fun v => In v (map fst focal)) (fst p) /\ Forall (fun v => In v (map snd focal)) (snd p).
 Proof. exact (mixture_values steps plo phi grid_len grid_ok grid_sorted focal). Qed.
+(* the output CONTAINS THE RESPONSES: for any choice of one value inside each focal interval (the response function at any point of each box
+   lies in the interval image of that box, C13), the quantile of the equal-weight distribution of those values lies, at every level of the
+   grid, between the left and the right bound of the mixture (which C14_mixture_values identifies as these two ecdf inverses) *)
+Theorem C14_contains_every_selection (focal : list (R * R)) (x : list R) : (1 < length focal)%nat ->
+  Forall2 (fun i v => fst i <= v <= snd i) focal x ->
+  let w := equal_weights RN (length focal) in
+  forall a, In a grid -> Stacking.ecdf_at (map fst focal) w a <= Stacking.ecdf_at x w a <= Stacking.ecdf_at (map snd focal) w a.
+Proof. exact (mixture_contains_selection steps plo phi grid_len grid_ok focal x). Qed.
 (* output support inside the image of the input supports: for ANY image function that maps boxes inside the supports into Y
    (every inclusion-isotone interval extension does, C12/C13), any rows of levels, any number of inputs *)
 Theorem C14_support (img : list (R * R) -> res (R * R)) (vars : list (list R * list R)) (levels : list (list R)) (Y : R * R) focal :
@@ -55,3 +63,4 @@ Theorem C14_slicing_levels (plo phi : R) (k d : nat) : NoDup (linspace RN plo ph
   (forall t, In t (slicing_levels RN plo phi k d) <-> length t = d /\ Forall (fun a => In a (linspace RN plo phi k)) t).
 Proof. exact (slicing_levels_complete plo phi k d). Qed.
 Print Assumptions C14_slicing_levels.
+Print Assumptions C14_contains_every_selection.
